@@ -719,7 +719,11 @@ def oracle_c02(res):
                  and (ended_at[r] is None or ended_at[r] >= t)]
         delivered = [x for v in rs.values() for x in v if x[0] == t]
         untransmitted = [r for r in rs if r not in toks and any(x[0] == t for x in rs[r])]
-        if match and not delivered and mt in ("CON", "NON") and not res["script"].get("oracle_only"):
+        # (a request that is failed in this very tick -- its own or another exchange's give-up timer -- may or may not
+        # still be outstanding when the datagram is dispatched: timer order within a tick is not the property's)
+        failed_now = {r for r, lst in fl.items() if any(tf == t for (tf, _) in lst)}
+        live = [r for r in match if r not in failed_now]
+        if match and live == match and not delivered and mt in ("CON", "NON") and not res["script"].get("oracle_only"):
             # (a separate response: matched by token and source alone, whatever message ID it comes under)
             return (f"matching-dropped: {mt} response token {tok} mid {mid} from {remote} at {t} answers outstanding "
                     f"request {match[0]} and was not handed over")
